@@ -56,11 +56,15 @@ PROPS["C06"] = dict(
          "over 16 tokens, explored depth-first and pruned where the engine has closed (extensions of a closed prefix are equivalent); "
          "each script is played whole-token and byte-at-a-time; plus replay of a recorded honest transcript against a fresh engine. "
          "Oracle after every engine call: no HandshakeComplete, no DeliverMessage, phase != Data. A positive control (honest peer "
-         "completes) runs per configuration. Stack layer: raw tcp attacker against real secured listeners and connectors.",
+         "completes) runs per configuration. Stack layer: raw tcp attacker against real secured listeners and connectors (including "
+         "near-miss PLAIN passwords). Creds layer: PLAIN server engines with the configured pair 'admin'/'secret', 1-2 character pairs and "
+         "random printable pairs; HELLO with every proper prefix, four extensions, every single-byte change (xor 01/20/80) of the password "
+         "and of the user name, empty fields, swapped fields - none may be admitted; the exact pair must be (else inconclusive).",
     assumptions=["the attacker does not know the random per-shard credentials / secret keys",
                  "a PLAIN transcript replay is not an attack in scope (it contains the valid credentials)"],
     shards=lambda tier, seed: sharded("c06", _n(tier, 8, 16), _n(tier, 300, 2400))
-    + sharded("c06", _n(tier, 4, 8), _n(tier, 300, 1800), extra=["--only", "stack"], name="c06-stack"),
+    + sharded("c06", _n(tier, 4, 8), _n(tier, 300, 1800), extra=["--only", "stack"], name="c06-stack")
+    + sharded("c06", 2, 300, extra=["--only", "creds"], name="c06-creds"),
     min_evaluations={"quick": 2000, "thorough": 20000},
 )
 
@@ -288,9 +292,21 @@ PROPS["C16"] = dict(
          "(0..150 ms) term() alone, close() on all or half the sockets then term(), or close() and term() concurrently. Assertions: returned "
          "within 30 s and not via term's internal 10 s timeout, no panic, every worker loop ends within 4 s (operations on closed sockets "
          "return), probes send()/recv() return within 2 s, endpoints of closed binders can be bound again within 2 s, live-actor count 0, no "
-         "inproc names left, tokio alive tasks and /proc/self/fd back to their pre-history values within 3 s. distinct = plan.",
-    assumptions=["task/fd baselines are taken inside the same runtime just before each history"],
-    shards=lambda tier, seed: sharded("c16", _n(tier, 8, 16), _n(tier, 300, 1500)),
+         "inproc names left, tokio alive tasks and /proc/self/fd back to their pre-history values within 3 s. distinct = plan. "
+         "(rpqclose) the real ReadyPipeQueue through the facade: 1..3 pop() calls parked before / started after close(), with 0..2 sender "
+         "handles of registered pipes (all three socket-level sender kinds) still alive: every pop must return. (attachrace) recv() and "
+         "recv_multipart() blocked without timeout on SUB/PULL/DEALER/ROUTER/REP while a tcp/ipc connection is attaching (0..4 ms sweep) and "
+         "close()+term() or term() alone run: both calls must have returned 5 s after term() did. (thorough only) the chaos and attachrace "
+         "layers again under ThreadSanitizer (all wall-clock bounds x10), whose 10x slowdown widens the windows between the actors; TSan reports "
+         "are attributed by sanparse.py.",
+    assumptions=["task/fd baselines are taken inside the same runtime just before each history",
+                 "under a sanitizer flavour the pipe descriptors of the sanitizer's external symbolizer are not counted as the library's"],
+    shards=lambda tier, seed: sharded("c16", _n(tier, 8, 16), _n(tier, 300, 1500))
+    + [dict(bin="c16", args=["--only", "rpqclose"], timeout=300, name="c16-rpqclose")]
+    + sharded("c16", _n(tier, 2, 4), 900, extra=["--only", "attachrace"], name="c16-attachrace")
+    + ([dict(bin="c16", flavour="tsan", args=["--tier", "quick", "--shard", "%d/4" % i], timeout=1500, name="c16-tsan-%d" % i) for i in range(4)]
+       + [dict(bin="c16", flavour="tsan", args=["--tier", "quick", "--only", "attachrace", "--cases", 120, "--shard", "%d/4" % i], timeout=1500, name="c16-tsan-attachrace-%d" % i) for i in range(4)]
+       if tier == "thorough" else []),
     max_parallel=8,
     min_evaluations={"quick": 40, "thorough": 400},
 )
